@@ -101,7 +101,9 @@ class Namespace:
         found_namespaces = find_sub_namespace(self, typename.namespaces)
         res = []
         for namespace in found_namespaces:
-            classes_and_funcs = (c for c in namespace.content
+            # An instantiated namespace no longer has its templates in `content`.
+            content = getattr(namespace, "declarations", namespace.content)
+            classes_and_funcs = (c for c in content
                                  if isinstance(c, (Class, GlobalFunction, ForwardDeclaration)))
             res += [c for c in classes_and_funcs if c.name == typename.name]
         if not res:
